@@ -243,6 +243,17 @@ struct FreeVarsVisitor {
 }
 
 impl Visitor for FreeVarsVisitor {
+    fn visit_block(&mut self, block: &Block) {
+        // Every block is a scope of its own: a `let` inside an `if`
+        // branch or a loop body must not hide an outer variable of
+        // the same name that is used after the block.
+        self.local_bindings.push(FxHashSet::default());
+        for expr in &block.exprs {
+            self.visit_expr(expr);
+        }
+        self.local_bindings.pop();
+    }
+
     fn visit_expr_variable(&mut self, symbol: &ast::Symbol) {
         if self.namespace.borrow().values.contains_key(&symbol.name) {
             return;
